@@ -4,7 +4,88 @@
 #include "opsmodel.h"
 using namespace V;
 
+// Sets too large to enumerate (more than 2^31 members): products of per-variable value sets over 11 variables of size 8.
+// The rank of a member is computed arithmetically (mixed radix over the sorted allowed values, top variable most significant).
+static void hugeCase(Ctx& c) {
+    Rng& r = c.rng;
+    const int NV = 11, SZ = 8;
+    Shape sh; sh.sizes.assign(size_t(NV + 1), SZ); sh.sizes[0] = 0;
+    MEDDLY::initialize();
+    World w(sh);
+    FSpec fsrc = mkSpec(false, range_type::BOOLEAN, edge_labeling::MULTI_TERMINAL, r.chance(1, 2) ? reduction_rule::FULLY_REDUCED : reduction_rule::QUASI_REDUCED);
+    randomPolicy(r, fsrc);
+    FSpec fix = mkSpec(false, range_type::INTEGER, edge_labeling::INDEX_SET, reduction_rule::FULLY_REDUCED);
+    randomPolicy(r, fix);
+    forest* FS = makeForest(w.dom, fsrc); forest* FX = makeForest(w.dom, fix);
+    const std::string kb = std::string("C15:huge:") + shortNameOf(fsrc.rr);
+    // allowed values per variable: mostly everything, the top variable at least 5 values so that n >= 5 * 8^k
+    std::vector<std::vector<int>> allowed(size_t(NV + 1));
+    int restricted = r.range(0, 3);
+    for (int v = 1; v <= NV; v++) for (int x = 0; x < SZ; x++) allowed[size_t(v)].push_back(x);
+    // (the conversion does not cache its result for levels the source skips: with a fully-reduced source it enumerates 8^k
+    //  paths through k skipped levels -- a cost, not a value.  Fully-reduced sources therefore leave only 3 variables
+    //  unrestricted and drop one value from each of the others: 7^8 * 8^3 = 2.95e9 members.)
+    if (fsrc.rr == reduction_rule::FULLY_REDUCED) {
+        std::vector<int> vs; for (int v = 1; v <= NV; v++) vs.push_back(v); r.shuffle(vs);
+        for (int q = 3; q < NV; q++) { auto& A = allowed[size_t(vs[size_t(q)])]; A.erase(A.begin() + long(r.below(A.size()))); }
+        restricted = 0;
+    }
+    for (int q = 0; q < restricted; q++) { int v = r.range(1, NV); auto& A = allowed[size_t(v)]; size_t keepn = size_t(r.range(v == NV ? 5 : 6, 7)); while (A.size() > keepn) A.erase(A.begin() + long(r.below(A.size()))); }
+    long n = 1; for (int v = 1; v <= NV; v++) n *= long(allowed[size_t(v)].size());
+    dd_edge s(FS); FS->createConstant(rangeval(true), s);
+    for (int v = 1; v <= NV; v++) {
+        if (int(allowed[size_t(v)].size()) == SZ) continue;
+        minterm_coll mc(unsigned(allowed[size_t(v)].size()), FS);
+        for (int x : allowed[size_t(v)]) { minterm& m = mc.unused(); for (int u = 1; u <= NV; u++) m.setVar(unsigned(u), u == v ? x : DONT_CARE); m.setValue(rangeval(true)); mc.pushUnused(); }
+        dd_edge ev(FS); mc.buildFunctionMax(rangeval(false), ev);
+        apply(INTERSECTION, s, ev, s);
+    }
+    std::string ctx = "product set with |allowed| = ["; for (int v = 1; v <= NV; v++) ctx += tos(allowed[size_t(v)].size()) + (v < NV ? "," : "]"); ctx += ", " + tos(n) + " members, source " + fsrc.str();
+    { long card = -1; apply(CARDINALITY, s, card); if (card != n) throw Violation("harness-operand:huge-set", ctx + ": CARDINALITY of the source set is " + tos(card)); }
+    dd_edge ix(FX);
+    phase("convert:huge");
+    if (!applyUn(c, CONVERT_TO_INDEX_SET(), s, ix)) { c.count("conversion_not_offered"); MEDDLY::cleanup(); throw Unsupported("CONVERT_TO_INDEX_SET not offered"); }
+    c.count("conversions"); c.count("sets_with_more_than_2^31_members", n > (1L << 31) ? 1 : 0);
+    if (ix.getNode() > 0) { long card = FX->getIndexSetCardinality(ix.getNode()); if (card != n) throw Violation(kb + ":root-cardinality", ctx + ": stored cardinality of the root is " + tos(card)); }
+    auto memberOf = [&](long i, std::vector<int>& a) { a.assign(size_t(NV + 1), 0); for (int v = 1; v <= NV; v++) { const auto& A = allowed[size_t(v)]; a[size_t(v)] = A[size_t(i % long(A.size()))]; i /= long(A.size()); } };
+    std::vector<long> probes = {0, 1, 5, n - 1, n - 2, n / 2, (1L << 31) - 1, 1L << 31, (1L << 31) + 1, (1L << 32) - 1, 1L << 32, (1L << 32) + 12345};
+    for (int q = 0; q < 30; q++) probes.push_back(long(r.below(uint64_t(n))));
+    minterm m(FX); std::vector<int> a;
+    for (long i : probes) {
+        if (i < 0 || i >= n) continue;
+        phase("getElement:huge");
+        for (int v = 1; v <= NV; v++) m.setVar(unsigned(v), 0);
+        if (!ix.getElement(i, m)) throw Violation(kb + ":getElement:not-found", ctx + ": getElement(" + tos(i) + ") failed");
+        memberOf(i, a);
+        for (int v = 1; v <= NV; v++) if (m.from(unsigned(v)) != a[size_t(v)]) {
+            std::string got = "(", want = "("; for (int u = NV; u >= 1; u--) { got += tos(m.from(unsigned(u))) + (u > 1 ? "," : ")"); want += tos(a[size_t(u)]) + (u > 1 ? "," : ")"); }
+            throw Violation(kb + ":getElement:wrong-member", ctx + ": getElement(" + tos(i) + ") = " + got + ", the member with that index is " + want);
+        }
+        // and the index function maps that member back to i
+        rangeval rv; for (int v = 1; v <= NV; v++) m.setVar(unsigned(v), a[size_t(v)]);
+        ix.evaluate(m, rv);
+        Val g = fromRV(rv);
+        if (!(g.k == Val::I && g.i == i)) throw Violation(kb + ":index-function", ctx + ": the member with index " + tos(i) + " evaluates to " + g.str());
+        c.count("lookups_in_range"); c.count("lookups_beyond_2^31", i >= (1L << 31) ? 1 : 0);
+    }
+    long outs[] = {-1, -2, n, n + 1, n + (1L << 31), -(1L << 31) - 1, -(1L << 32), LONG_MAX};
+    for (long i : outs) { phase("getElement:out-of-range"); if (ix.getElement(i, m)) throw Violation(kb + ":getElement:out-of-range-accepted", ctx + ": getElement(" + tos(i) + ") succeeded, valid indexes are 0.." + tos(n - 1)); c.count("lookups_out_of_range"); }
+    // a non-member evaluates to +infinity
+    if (restricted) for (int v = 1; v <= NV; v++) if (int(allowed[size_t(v)].size()) < SZ) {
+        int miss = 0; while (std::find(allowed[size_t(v)].begin(), allowed[size_t(v)].end(), miss) != allowed[size_t(v)].end()) miss++;
+        for (int u = 1; u <= NV; u++) m.setVar(unsigned(u), u == v ? miss : allowed[size_t(u)][0]);
+        rangeval rv; ix.evaluate(m, rv); if (!fromRV(rv).isInf()) throw Violation(kb + ":index-function", ctx + ": a non-member does not evaluate to +infinity");
+        break;
+    }
+    auditForest(FX, "set/INDEX_SET", c, "C15");
+    c.count("huge_cases");
+    c.nontrivial = true; c.sig = "huge-" + tos(c.idx);
+    c.sample = "{\"huge\":" + jstr(ctx) + "}";
+    MEDDLY::cleanup();
+}
+
 static void run(Ctx& c) {
+    if (c.idx % 16 == 5) { hugeCase(c); return; }
     Rng& r = c.rng;
     Shape sh = randomShape(r, 1, 5, 5, 1024);
     MEDDLY::initialize();
